@@ -113,23 +113,40 @@ def refine(c, ranges):
     if c[0] == 'band':
         refine(c[1], ranges); refine(c[2], ranges); return
     if c[0] not in ('le', 'lt', 'eq'): return
-    a, b = c[1], c[2]
-    off = 1 if c[0] == 'lt' else 0
-    def leaf(x):
-        """x = leaf + k  -> (leaf, k)"""
-        if x[0] == 'lin' and len(x[1]) == 1 and x[1][0][1] == 1: return x[1][0][0], x[2]
-        if x[0] not in ('c', 'lin'): return x, 0
-        return None, 0
-    def upd(t, lo=None, hi=None):
+    d = sub(c[1], c[2])
+    if c[0] == 'lt': d = add(d, ONE)          # a < b  <=>  a - b + 1 <= 0
+    _refine_le0(d, ranges)
+    if c[0] == 'eq': _refine_le0(neg(d), ranges)
+
+def _refine_le0(d, ranges):
+    """d = sum k_i t_i + c0 <= 0 : bound every leaf using the ranges of the others"""
+    dd, c0 = to_lin(d)
+    if not dd: return
+    def r(t):
+        b = _rng(t); o = ranges.get(t)
+        return (max(b[0], o[0]), min(b[1], o[1])) if o else b
+    mins = {}
+    for t, k in dd.items():
+        lo, hi = r(t)
+        mins[t] = k * lo if k > 0 else k * hi
+    total = sum(mins.values())
+    for t, k in dd.items():
+        if abs(mins[t]) >= BIG or abs(total) >= BIG // 2:
+            others = None
+            if all(abs(v) < BIG for u, v in mins.items() if u != t): others = sum(v for u, v in mins.items() if u != t)
+        else:
+            others = total - mins[t]
+        if others is None: continue
+        # k*t <= -c0 - others
+        bound = -c0 - others
         old = ranges.get(t, (-BIG, BIG))
-        ranges[t] = (max(old[0], lo) if lo is not None else old[0], min(old[1], hi) if hi is not None else old[1])
-    la, ka = leaf(a); lb, kb = leaf(b)
-    if b[0] == 'c' and la is not None:
-        upd(la, hi=b[1] - off - ka)
-        if c[0] == 'eq': upd(la, lo=b[1] - ka)
-    if a[0] == 'c' and lb is not None:
-        upd(lb, lo=a[1] + off - kb)
-        if c[0] == 'eq': upd(lb, hi=a[1] - kb)
+        if k > 0: ranges[t] = (old[0], min(old[1], bound // k))
+        else: ranges[t] = (max(old[0], -((-bound) // k) if False else _ceil_div(bound, k)), old[1])
+
+def _ceil_div(a, b):
+    # smallest integer >= a / b  for b < 0:  t >= a/b
+    q, rm = divmod(a, b)
+    return q if rm == 0 else q + 1
 
 def _rng(t):
     k = t[0]
@@ -446,7 +463,37 @@ def equal(a, b, facts=(), max_split=10):
         for asg in itertools.product((1, 0), repeat=len(conds)):
             cm = {c: C(v) for c, v in zip(conds, asg)}
             if not _consistent(cm, facts): continue
-            a2, b2 = (subst(a1, cm), subst(b1, cm)) if cm else (a1, b1)
+            global CTX
+            saved = CTX
+            ranges = {}
+            for c, v in zip(conds, asg): refine(c if v else bnot(c), ranges)
+            for _round in range(3):
+                CTX = ranges
+                for fct in facts:
+                    fr_ = rebuild(fct, lambda x: (C(rng(x)[0]) if x in ranges and x[0] != 'c' and rng(x)[0] == rng(x)[1] else cm.get(x)))
+                    if fr_ == FALSE: ranges[('a', '$infeasible')] = (1, 0)
+                    refine(fr_, ranges)
+                CTX = saved
+            feasible = True
+            for t_, (lo_, hi_) in ranges.items():
+                if t_ == ('a', '$infeasible'): feasible = False; break
+                b_ = _rng(t_)
+                if max(lo_, b_[0]) > min(hi_, b_[1]): feasible = False
+            if not feasible: continue
+            CTX = ranges
+            try:
+                def f(x):
+                    r = cm.get(x)
+                    if r is not None: return r
+                    if x in ranges and x[0] != 'c':
+                        lo_, hi_ = rng(x)
+                        if lo_ == hi_: return C(lo_)
+                    return None
+                a2, b2 = rebuild(a1, f), rebuild(b1, f)
+                # a second pass lets comparisons fold under the refined ranges
+                a2, b2 = rebuild(a2, f), rebuild(b2, f)
+            finally:
+                CTX = saved
             if a2 != b2:
                 return False, {'parity': {key(x): p for x, p in zip(pa, par)},
                                'conds': {show(c): v for c, v in zip(conds, asg)},
@@ -490,7 +537,12 @@ def show(t, depth=0):
     if k == 'bnot': return '!' + show(t[1])
     if k == 'band': return '(%s && %s)' % (show(t[1]), show(t[2]))
     if k == 'bor': return '(%s || %s)' % (show(t[1]), show(t[2]))
-    if k == 'S': return 'S[%s]' % (show(t[1]) if isinstance(t[1], tuple) else t[1])
+    if k == 'S':
+        x = t[1]
+        if isinstance(x, tuple) and x and x[0] == 'LE': return 'S[le%d(%s)]' % (x[2], show(x[1]))
+        if isinstance(x, tuple) and x and x[0] in ('raw', 'emit'): return 'S[%s %s]' % (x[0], show(x[1]))
+        return 'S[%s]' % (repr(x)[:80],)
+    if k == 'Ssum': return 'SUM_{%s<%s}(%s)' % (t[2], show(t[1]), show(t[3]))
     if k == 'len': return 'len(%s)' % show(t[1])
     if k == 'sel': return '%s[%s]' % (show(t[1]), show(t[2]))
     if k == 'discr': return 'discr(%s)' % show(t[1])
